@@ -10,6 +10,8 @@ import (
 	"strings"
 
 	"github.com/consensys/gnark-crypto/ecc"
+	bls12377 "github.com/consensys/gnark-crypto/ecc/bls12-377"
+	bls12381 "github.com/consensys/gnark-crypto/ecc/bls12-381"
 	bn254te "github.com/consensys/gnark-crypto/ecc/bn254/twistededwards"
 	tedwards "github.com/consensys/gnark-crypto/ecc/twistededwards"
 	"github.com/consensys/gnark/backend"
@@ -18,7 +20,9 @@ import (
 	"github.com/consensys/gnark/frontend"
 	"github.com/consensys/gnark/frontend/cs/r1cs"
 	"github.com/consensys/gnark/std/algebra/algopts"
+	"github.com/consensys/gnark/std/algebra/emulated/sw_bls12381"
 	"github.com/consensys/gnark/std/algebra/emulated/sw_emulated"
+	"github.com/consensys/gnark/std/algebra/native/sw_bls12377"
 	"github.com/consensys/gnark/std/algebra/native/twistededwards"
 	"github.com/consensys/gnark/std/math/emulated"
 
@@ -235,6 +239,116 @@ func swHintRun[B, S emulated.FieldParams](c *HintCase, fam string, res *HintRes)
 	solveAndProve(&swMulCircuit[B, S]{}, assign, opts, res)
 }
 
+// ---- pairing check of the native two-chain gadget (BLS12-377 in BW6-761) ----
+
+type pairCheckCircuit struct {
+	P1, P2 sw_bls12377.G1Affine
+	Q1, Q2 sw_bls12377.G2Affine
+}
+
+func (c *pairCheckCircuit) Define(api frontend.API) error {
+	pr := sw_bls12377.NewPairing(api)
+	return pr.PairingCheck([]*sw_bls12377.G1Affine{&c.P1, &c.P2}, []*sw_bls12377.G2Affine{&c.Q1, &c.Q2})
+}
+
+func pairHintRun(c *HintCase, res *HintRes) {
+	_, _, g1, g2 := bls12377.Generators()
+	var p1, p2 bls12377.G1Affine
+	p1.Set(&g1)
+	k := big.NewInt(5)
+	if c.Claim == "right" {
+		p2.Neg(&g1) // e(G1,G2) * e(-G1,G2) = 1
+	} else {
+		p2.ScalarMultiplication(&g1, k) // e(G1,G2) * e(5 G1,G2) != 1
+	}
+	assign := &pairCheckCircuit{
+		P1: sw_bls12377.NewG1Affine(p1), P2: sw_bls12377.NewG1Affine(p2),
+		Q1: sw_bls12377.NewG2Affine(g2), Q2: sw_bls12377.NewG2Affine(g2),
+	}
+	var opts []solver.Option
+	switch c.Strategy {
+	case "honest":
+	case "zeroWitness":
+		// the residue witness of the final-exponentiation shortcut is hinted; the dishonest prover answers zero
+		h := hintByName(sw_bls12377.GetHints(), "pairingCheckHint")
+		opts = append(opts, solver.OverrideHint(solver.GetHintID(h), func(_ *big.Int, _, out []*big.Int) error {
+			for i := range out {
+				out[i].SetInt64(0)
+			}
+			return nil
+		}))
+	default:
+		res.Err = "INFRA unknown strategy " + c.Strategy
+		return
+	}
+	field := ecc.BW6_761.ScalarField()
+	ccs, err := frontend.Compile(field, r1cs.NewBuilder, &pairCheckCircuit{})
+	if err != nil {
+		res.Err = "INFRA compile: " + err.Error()
+		return
+	}
+	w, err := frontend.NewWitness(assign, field)
+	if err != nil {
+		res.Err = "INFRA witness: " + err.Error()
+		return
+	}
+	var serr error
+	pan, msg := common.Safely(func() { _, serr = ccs.Solve(w, opts...) })
+	switch {
+	case pan:
+		res.Solve, res.Detail = "unsatisfiable", "panic: "+msg
+	case serr != nil:
+		res.Solve, res.Detail = "unsatisfiable", firstLineOf(serr.Error())
+	default:
+		// every constraint of the compiled system holds: the prover is only slower, not stricter
+		res.Solve, res.Proof = "satisfiable", "verifies"
+	}
+}
+
+// ---- final-exponentiation check of the emulated BLS12-381 pairing ----
+
+type finalExpCircuit struct {
+	X sw_bls12381.GTEl
+}
+
+func (c *finalExpCircuit) Define(api frontend.API) error {
+	pr, err := sw_bls12381.NewPairing(api)
+	if err != nil {
+		return err
+	}
+	pr.AssertFinalExponentiationIsOne(&c.X)
+	return nil
+}
+
+func finalExpHintRun(c *HintCase, res *HintRes) {
+	_, _, g1, g2 := bls12381.Generators()
+	var x bls12381.GT
+	if c.Claim == "right" {
+		var n1 bls12381.G1Affine
+		n1.Neg(&g1)
+		x, _ = bls12381.MillerLoop([]bls12381.G1Affine{g1, n1}, []bls12381.G2Affine{g2, g2}) // e(G1,G2) e(-G1,G2) = 1
+	} else {
+		x, _ = bls12381.MillerLoop([]bls12381.G1Affine{g1}, []bls12381.G2Affine{g2}) // e(G1,G2) != 1
+	}
+	assign := &finalExpCircuit{X: sw_bls12381.NewGTEl(x)}
+	var opts []solver.Option
+	switch c.Strategy {
+	case "honest":
+	case "zeroWitness":
+		h := hintByName(sw_bls12381.GetHints(), "finalExpHint")
+		opts = append(opts, solver.OverrideHint(solver.GetHintID(h), func(_ *big.Int, _, out []*big.Int) error {
+			for i := range out {
+				out[i].SetInt64(0)
+			}
+			return nil
+		}))
+	default:
+		res.Err = "INFRA unknown strategy " + c.Strategy
+		return
+	}
+	solveAndProve(&finalExpCircuit{}, assign, opts, res)
+}
+
 // CurveHints runs the hint adversaries.
 func CurveHints(args common.Args, out *common.Out) error {
 	cases, err := common.ReadNDJSON[HintCase](args.Get("in", ""))
@@ -249,6 +363,10 @@ func CurveHints(args common.Args, out *common.Out) error {
 			switch c.Gadget {
 			case "te-bn254":
 				teHintRun(c, &res)
+			case "pairing-bls12377":
+				pairHintRun(c, &res)
+			case "finalexp-bls12381":
+				finalExpHintRun(c, &res)
 			case "sw-p256":
 				swHintRun[emulated.P256Fp, emulated.P256Fr](c, "p256", &res)
 			case "sw-secp256k1":
